@@ -126,20 +126,17 @@ pub fn integrity(l: &RunLog) -> Vec<Finding> {
                     // root-cause classification: the writer re-cut a sequence number (an expired MTU probe)
                     // whose original transmission had in fact been delivered
                     let writer_is_a = e.side == Side::B;
-                    let mut first_len: std::collections::BTreeMap<u16, (usize, bool)> = Default::default();
+                    // (any earlier transmission of that sequence number - the probe or its retransmission - that
+                    // was delivered in a different size)
+                    let mut earlier: std::collections::BTreeMap<u16, Vec<(usize, bool)>> = Default::default();
                     let mut recut_of_delivered = false;
                     for w in l.wire.iter().filter(|w| w.from_a == writer_is_a && w.ptype == 0 && !w.injected && !w.rejected) {
                         let delivered = l.delivered.iter().any(|d| d.1 == w.k);
-                        match first_len.get(&w.seq) {
-                            None => {
-                                first_len.insert(w.seq, (w.payload.len(), delivered));
-                            }
-                            Some((len0, del0)) => {
-                                if *len0 != w.payload.len() && *del0 {
-                                    recut_of_delivered = true;
-                                }
-                            }
+                        let e = earlier.entry(w.seq).or_default();
+                        if e.iter().any(|(len0, del0)| *len0 != w.payload.len() && *del0) {
+                            recut_of_delivered = true;
                         }
+                        e.push((w.payload.len(), delivered));
                     }
                     // ... or the re-cut version never reached the wire: an oversized first transmission was
                     // delivered, but the first ACK covering it reached the writer a full minimum RTO (200 ms) later
@@ -833,11 +830,22 @@ pub fn bounded_failure(property: &'static str, l: &RunLog, ta: u64, bound_us: u6
             // bytes that no delivered datagram ever acknowledged (an ACK in flight at the abort still counts)
             let seq_end = seq_end_map(l, from_a);
             let acked = acked_bytes_at(l, from_a, &seq_end, u64::MAX);
-            if l.accepted[idx(side)] > acked {
+            // (the harness's own probe writes after the horizon are not "data outstanding when the peer
+            // vanished": an idle endpoint has no keep-alive and notices nothing until it sends again)
+            let mut accepted_before_probe = 0u64;
+            for e in l.app.iter().filter(|e| e.side == side) {
+                match &e.ev {
+                    AppEv::ProbePhase { .. } => break,
+                    AppEv::WriteAccepted { n, .. } => accepted_before_probe += *n as u64,
+                    _ => {}
+                }
+            }
+            if accepted_before_probe > acked {
                 obliged = true;
             }
             // an unacknowledged FIN
-            if let Some(fin) = l.wire.iter().find(|w| w.from_a == from_a && w.ptype == 1 && !w.injected) {
+            let probe_t = l.app.iter().find(|e| e.side == side && matches!(e.ev, AppEv::ProbePhase { .. })).map(|e| e.t_us).unwrap_or(u64::MAX);
+            if let Some(fin) = l.wire.iter().find(|w| w.from_a == from_a && w.ptype == 1 && !w.injected && w.t_us < probe_t) {
                 let fin_acked = l.wire.iter().any(|w| w.from_a != from_a && !w.injected && w.parse_ok && w.ack == fin.seq && delivery_time(l, w.k).is_some());
                 if !fin_acked {
                     obliged = true;
